@@ -631,6 +631,18 @@ func (en *evalEnv) call(x *ECall) ev {
 			return ev{False, nil}
 		}
 		return ev{Eq(App(SInt, "uf_and", a, b), b), nil}
+	case "mine":
+		// mine(x): the object x refers to was allocated by this activation, or the caller handed it over
+		// (it is not visible to anyone else); family O
+		a := arg(0)
+		t := a.v.(*Term)
+		id := t
+		if t.Sort == SSl {
+			id = App(SInt, "sl-id", t)
+		} else if t.Sort == SObj {
+			id = App(SInt, "o-int", t)
+		}
+		return ev{e.mineTerm(id), nil}
 	case "live":
 		// exists now: allocated before this program point (a later make/new differs from it)
 		a := arg(0)
